@@ -1338,6 +1338,9 @@ pub fn oracle_scenario(prop: &str, a: &[String]) -> Option<Verdict> {
             let v = u32::from_str_radix(a.get(2)?, 16).ok()?;
             Some(crate::round3::oracle_header_code_any_version(code, v.to_be_bytes()))
         }
+        (_, Some("path-hostile-index")) => Some(crate::round8::oracle_path_hostile_index(a.get(1)?.parse().ok()?)),
+        (_, Some("nth-after-failed-nth")) => Some(crate::round8::oracle_nth_after_failed_nth()),
+        (_, Some("truncated-empty-shapes")) => Some(crate::round8::oracle_truncated_empty_shapes(a.get(1)?.parse().ok()?, a.get(2)?.parse().ok()?)),
         (_, Some("failed-write-then-finalize")) => Some(crate::round7::oracle_failed_write_then_finalize(a.get(1)?, a.get(2)?.parse().ok()?, a.get(3)?.parse().ok()?)),
         (_, Some("bulk-write-faults")) => Some(crate::round7::oracle_bulk_write_faults()),
         (_, Some("reverse-truncated")) => Some(crate::round7::oracle_reverse_truncated()),
